@@ -55,8 +55,11 @@ type runState struct {
 	prevClass string // fresh|append|rollback|noop: what the previous operation was
 	panicked  bool
 	plan      *Plan
-	plans     []Plan // torn mode: the fault sequence of the running append
-	lastTorn  string // torn mode: shape of the latest double-fault append of this history ("" = none yet)
+	plans     []Plan   // torn mode: the fault sequence of the running append
+	lastTorn  string   // torn mode: shape of the latest double-fault append of this history ("" = none yet)
+	hold      *holdCtl // two-writers mode: the hold wrapper's control, installed on holdFor's files
+	holdFor   *Stores
+	lastTwo   string // two-writers mode: shape of the latest episode
 }
 
 func (r *Runner) begin(h *History, mode string) (*runState, error) {
